@@ -276,10 +276,6 @@ func (app *Application) submitEvidence(
 	if b {
 		return roothash.ErrDuplicateEvidence
 	}
-	if err = state.SetEvidenceHash(ctx, rtState.Runtime.ID, round, evHash); err != nil {
-		return err
-	}
-
 	if err = onEvidenceRuntimeEquivocation(
 		ctx,
 		pk,
@@ -289,7 +285,9 @@ func (app *Application) submitEvidence(
 		return fmt.Errorf("error slashing runtime node: %w", err)
 	}
 
-	return nil
+	// Record the evidence only after it has been acted upon, so that evidence
+	// that is rejected (e.g. for a node that does not exist) leaves no state.
+	return state.SetEvidenceHash(ctx, rtState.Runtime.ID, round, evHash)
 }
 
 func (app *Application) submitMsg(
